@@ -267,6 +267,27 @@ func init() {
 				report("main", "counter", rep.AllocateCounter(bn, big), bn, big, int64(7000+nt), 0)
 				report("main", "gauge", rep.AllocateGauge(bn+".g", big), bn+".g", big, 0, float64(nt)+0.5)
 			}
+			// more distinct tag sets than the reporter's pool of tag slices holds (4096): the handles allocated first still
+			// report with their own tags afterwards
+			if ci == 3 {
+				type early struct {
+					h    tally.CachedCount
+					name string
+					tags map[string]string
+				}
+				var firsts []early
+				for i := 0; i < 4400; i++ {
+					tg := map[string]string{"shard": fmt.Sprintf("s%d", i)}
+					nm := fmt.Sprintf("many.%d", i)
+					h := rep.AllocateCounter(nm, tg)
+					if i < 40 {
+						firsts = append(firsts, early{h, nm, tg})
+					}
+				}
+				for i, f := range firsts {
+					report("main", "counter", f.h, f.name, f.tags, int64(9000+i), 0)
+				}
+			}
 			var bucketSeqs []M
 			var bsmu sync.Mutex
 			startAll := make(chan struct{})
